@@ -232,7 +232,17 @@ pub fn compare(a: &Content, b: &Content, typed: bool, value_text: &dyn Fn(&Val) 
             if x.id != y.id {
                 v.push(("datasets".to_string(), "id".to_string(), format!("dataset {} id {:?} became {:?}", i, x.id, y.id)));
             }
-            if x.keys != y.keys {
+            let keys_equal = if typed {
+                x.keys == y.keys
+            } else {
+                // the CSV claim is "the same keys": order is not part of it
+                let mut a = x.keys.clone();
+                let mut b = y.keys.clone();
+                a.sort();
+                b.sort();
+                a == b
+            };
+            if !keys_equal {
                 v.push(("keys".to_string(), if x.keys.len() != y.keys.len() { "count" } else { "names" }.to_string(), format!("dataset {} keys {:?} became {:?}", i, x.keys, y.keys)));
             }
             if x.data.len() != y.data.len() {
